@@ -59,13 +59,17 @@ impl<T> Observer<T> for Subject<T> {
         // Take a snapshot of the live observers under the lock, then call them with no lock
         // held: a callback may subscribe (it takes effect for later events), and an observer
         // whose subscribe() has returned is in the snapshot of every later publication.
+        sync_point!("subject.observers.lock:pre", &self.observers);
         let mut observers = self.observers.lock().unwrap();
+        sync_point!("subject.observers.lock:post", &self.observers);
         observers.retain(|observer| observer.strong_count() > 0);
         let snapshot: Vec<Arc<dyn Observer<T>>> = observers
             .iter()
             .filter_map(|observer| observer.upgrade())
             .collect();
+        sync_point!("subject.observers.unlock:pre", &self.observers);
         drop(observers);
+        sync_point!("subject.observers.unlock:post", &self.observers);
 
         for observer in snapshot.iter() {
             observer.next(event);
@@ -76,9 +80,13 @@ impl<T> Observer<T> for Subject<T> {
 impl<T: Send + Sync + Clone + 'static> Observable<T> for Subject<T> {
     fn subscribe<S: Observer<T> + 'static>(&self, observer: &Arc<S>) {
         let weak_observer = Arc::downgrade(observer) as Weak<dyn Observer<T>>;
+        sync_point!("subject.observers.lock:pre", &self.observers);
         let mut observers = self.observers.lock().unwrap();
+        sync_point!("subject.observers.lock:post", &self.observers);
         observers.push(weak_observer);
+        sync_point!("subject.observers.unlock:pre", &self.observers);
         drop(observers);
+        sync_point!("subject.observers.unlock:post", &self.observers);
     }
 }
 
@@ -109,12 +117,16 @@ impl<T: Sync + Send + Clone> Default for Single<T> {
 
 impl<T: Sync + Send + Clone> Observer<T> for Single<T> {
     fn next(&self, event: &T) {
+        sync_point!("single.value.write:pre", &self.value);
         let mut value = self.value.write().unwrap();
+        sync_point!("single.value.write:post", &self.value);
         let first = value.is_none();
         if first {
             *value = Some(event.clone());
         }
+        sync_point!("single.value.unlock:pre", &self.value);
         drop(value);
+        sync_point!("single.value.unlock:post", &self.value);
 
         // The value lock is released before emitting, so observers may subscribe from a callback
         if first {
@@ -127,12 +139,16 @@ impl<T: Sync + Send + Clone + 'static> Observable<T> for Single<T> {
     fn subscribe<S: Observer<T> + 'static>(&self, observer: &Arc<S>) {
         // While the value is unset the observer is added under the read guard, so it is in the
         // list before the emission (which takes the write lock first) makes its snapshot.
+        sync_point!("single.value.read:pre", &self.value);
         let value = self.value.read().unwrap();
+        sync_point!("single.value.read:post", &self.value);
         let existing = (*value).clone();
         if existing.is_none() {
             self.subject.subscribe(observer);
         }
+        sync_point!("single.value.unlock:pre", &self.value);
         drop(value);
+        sync_point!("single.value.unlock:post", &self.value);
 
         if let Some(existing) = existing {
             observer.next(&existing);
